@@ -46,6 +46,42 @@ def source_fingerprint(root, files):
 # ----------------------------------------------------------------------------
 # worker side
 
+_ROOT = None
+
+
+def safe_run_case(mod, case):
+    """run_case, except that an exception which escapes the harness but was *raised inside the
+    code under test* (innermost traceback frame under <root>/boltons) is a violation of its own
+    class, not a harness error: the harness called the library somewhere it did not expect it
+    to fail.  Anything raised by harness code itself still propagates (exit 2)."""
+    try:
+        return mod.run_case(case)
+    except Exception as e:
+        tb = e.__traceback__
+        last = None
+        while tb is not None:
+            last = tb
+            tb = tb.tb_next
+        fn = last.tb_frame.f_code.co_filename if last is not None else ''
+        root = os.path.join(os.path.realpath(_ROOT or '/repo'), 'boltons') + os.sep
+        chain_in_lib = False
+        tb = e.__traceback__
+        while tb is not None:
+            if os.path.realpath(tb.tb_frame.f_code.co_filename).startswith(root):
+                chain_in_lib = True
+            tb = tb.tb_next
+        if not chain_in_lib:
+            raise
+        out = core.Outcome()
+        where = '%s:%d' % (os.path.basename(fn), last.tb_lineno)
+        out.fail('exception-escaped-code-under-test', 0,
+                 '%s: %s raised at %s while the harness was driving the library (not an outcome any '
+                 'operation of the property may have)' % (type(e).__name__, str(e)[:200], where),
+                 exc=type(e).__name__)
+        out.digest = 'exc:' + type(e).__name__
+        return out
+
+
 def _summ_new():
     return {'runs': 0, 'steps': 0, 'sim_time': 0.0, 'faults': {}, 'probes': {},
             'nontrivial': set(), 'violations': [], 'known': {}, 'digests': {},
@@ -92,7 +128,7 @@ def _run_block(kind, start, count, want_digests):
                 case = fixed[idx]
             else:
                 case = mod.gen_case(core.rng_for(_SEED, mod.PROPERTY, idx), _TIER)
-            out = mod.run_case(case)
+            out = safe_run_case(mod, case)
             _summ_add(summ, idx, case, out, kind,
                       want_digests and kind == 'seeded' and idx < want_digests)
             if kind == 'seeded' and idx % 97 == 0 and len(summ['samples']) < 2:
@@ -211,7 +247,7 @@ def digests_local(mod, seed, tier, n):
     d = {}
     for idx in range(n):
         case = mod.gen_case(core.rng_for(seed, mod.PROPERTY, idx), tier)
-        d[idx] = mod.run_case(case).digest
+        d[idx] = safe_run_case(mod, case).digest
     return d
 
 
@@ -224,7 +260,7 @@ def minimise(mod, case, viol):
         if tests[0] > getattr(mod, 'SHRINK_BUDGET', 4000):
             return False
         try:
-            o = mod.run_case(c)
+            o = safe_run_case(mod, c)
         except Exception:
             return False     # a shrunk case the harness cannot execute is not a reproduction
         return o.violation is not None and core.viol_key(o.violation) == key
@@ -262,7 +298,7 @@ def replay(mod, path, root):
     with open(path) as fh:
         doc = json.load(fh)
     case = mod.case_from_json(doc['case']) if hasattr(mod, 'case_from_json') else doc['case']
-    out = mod.run_case(case)
+    out = safe_run_case(mod, case)
     exp = doc['violation']
     if out.violation is None and exp['class'].startswith('known-family-not-listed:'):
         kid = exp['class'].split(':', 1)[1]
@@ -292,8 +328,8 @@ def replay(mod, path, root):
 
 def run_check(mod, tier, seed, root, budget_s=None, workers=None, min_runs=None,
               selftest=False):
-    global _MOD, _TIER, _SEED
-    _MOD, _TIER, _SEED = mod, tier, seed
+    global _MOD, _TIER, _SEED, _ROOT
+    _MOD, _TIER, _SEED, _ROOT = mod, tier, seed, root
     t0 = time.monotonic()
     workers = workers or min(16, os.cpu_count() or 1)
     cfg = mod.TIERS[tier]
@@ -354,9 +390,9 @@ def run_check(mod, tier, seed, root, budget_s=None, workers=None, min_runs=None,
         if len(reported) + len(known_lines) >= 12:
             break
         small, ntests = minimise(mod, case, viol)
-        out = mod.run_case(small)
+        out = safe_run_case(mod, small)
         if out.violation is None:       # cannot happen (minimise re-verifies); be safe
-            small, out = case, mod.run_case(case)
+            small, out = case, safe_run_case(mod, case)
         if out.violation is None:
             print('HARNESS-ERROR violation of run %s/%d did not reproduce in the parent' % (kind, idx))
             return 2
@@ -412,7 +448,7 @@ def write_evidence(mod, tier, seed, total, nfixed, wall, nreported, nviol, known
                for c in total['samples'][:4]]
     if not samples:
         fc = mod.fixed_cases(tier)
-        samples = [mod.describe_case(fc[0]) if hasattr(mod, 'describe_case') else fc[0]] if fc else []
+        samples = [mod.describe_case(fc[0]) if hasattr(mod, 'describe_case') else fc[0]] if len(fc) else []
     cov = {
         'evaluations': runs,
         'distinct_nontrivial': len(total['nontrivial']),
